@@ -183,6 +183,16 @@ def g_prog_paths(rng):
         case["args2"] = True
     if rng.random() < 0.3:
         make_rounds(rng, case)
+    elif rng.random() < 0.25:
+        # one flow STOPS a competitor (`send StopFlow(flow_id="f<j>")`) on its way to its action: the target is dead when the
+        # conflicts are resolved — it is out of the competition (and its action must not start), whatever its specificity
+        cand = [i for i, f in enumerate(flows) if f["shape"] == "direct"]
+        if cand and n >= 2:
+            i = rng.choice(cand)
+            j = rng.choice([x for x in range(n) if x != i])
+            pre = list(flows[i].get("pre", []))
+            pre.insert(rng.randrange(len(pre) + 1), f"stop:{j}")
+            flows[i]["pre"] = pre
     if rng.random() < 0.25:
         case["evtype"] = "action"  # the triggering event is an action event (UtteranceUserActionFinished), matched as `UtteranceUserAction.Finished(...)`
     for f in flows:
@@ -340,6 +350,17 @@ def gen_cases(rng, tier):
     return cases
 
 
+def escalate(rng, focus, tier):
+    """search set used when only the proof / correspondence broke: programs (all generators), three choice sequences each"""
+    cases = []
+    for k in range(6000):
+        r = rng.random()
+        c = g_prog_paths(rng) if r < 0.5 else (g_prog(rng) if r < 0.85 else (g_prog_lowprio(rng) if r < 0.95 else g_prog_restart(rng)))
+        c["choices"] = [[rng.randrange(6) for _ in range(6)] for _ in range(3)]
+        cases.append(c)
+    return cases
+
+
 # ----------------------------------------------------------------------------- program rendering
 
 def loop_name(f, i):
@@ -391,6 +412,8 @@ def path_lines(f, i, loopname, a2, out):
             lines.append(f"$x{k} = {k}")
         elif p == "sendint":
             lines.append(f'send UserIntentLog(flow_id="f{i}", intent="i{k}")')
+        elif p.startswith("stop:"):
+            lines.append(f'send StopFlow(flow_id="f{p[5:]}")')
         elif p == "stopint":
             lines.append(f'send StopFlow(flow_id="nosuchflow{k}")')
         elif p == "starthelper":
@@ -517,6 +540,7 @@ class Recorder:
         # skeleton of the main loop of run_to_completion (phase 5): one entry per popped internal event / merge pass /
         # resolution / advance of the winners, with the number of internal events pushed and the heads returned
         self.skel = None
+        self.sk_heads = {}
         self.sk_pending = None
         self.ahf_depth = 0
 
@@ -548,7 +572,9 @@ class Recorder:
             rec.sk_pending = None
             mset = []
             if kind == "merge":
-                mset = [h.uid for fs in state.flow_states.values() for h in fs.heads.values() if h.status == sm.FlowHeadStatus.MERGING]
+                # status read from the head OBJECTS the loop has been handed so far (a head of an aborted flow is no longer in
+                # flow_state.heads but may still be MERGING in the loop's list)
+                mset = [u for u, h in rec.sk_heads.items() if h.status == sm.FlowHeadStatus.MERGING]
             rec.ahf_depth += 1
             try:
                 out = orig_ahf(state, heads)
@@ -556,6 +582,8 @@ class Recorder:
                 rec.ahf_depth -= 1
             npush = len(state.internal_events) - q0
             uids = [h.uid for h in out]
+            for h in out:
+                rec.sk_heads[h.uid] = h
             if kind == "merge":
                 rec.skel.append(["merge", mset, npush, uids, [h.uid for h in heads]])
             else:
@@ -565,8 +593,8 @@ class Recorder:
         def resolve_skel(state, heads):
             if rec.skel is None:
                 return orig_resolve_rec(state, heads)
-            aset = [h.uid for fs in state.flow_states.values() if sm.is_active_flow(fs) for h in fs.heads.values()
-                    if h.status == sm.FlowHeadStatus.ACTIVE]
+            aset = [u for u, h in rec.sk_heads.items() if h.status == sm.FlowHeadStatus.ACTIVE
+                    and h.flow_state_uid in state.flow_states and sm.is_active_flow(state.flow_states[h.flow_state_uid])]
             q0 = len(state.internal_events)
             entry = ["res", aset, 0, [], [h.uid for h in heads], q0]
             rec.skel.append(entry)
@@ -743,7 +771,7 @@ def run_prog(case):
                 if case.get("rounds") and k_ev > 0:
                     step["inst"] = instances()
                     step["before"] = snap(step["inst"])
-                rec.skel, rec.sk_pending = [], None
+                rec.skel, rec.sk_pending, rec.sk_heads = [], None, {}
                 try:
                     with contextlib.redirect_stdout(io.StringIO()):
                         sm.run_to_completion(st, dict(ev))
@@ -1214,6 +1242,16 @@ def _pat_fits(case, pat):
     return all(k in case["payload"] and case["payload"][k] == v for k, v in pat.items())
 
 
+def stopped_targets(case):
+    """flows that a fitting flow stops (`send StopFlow(flow_id=…)`) on its way to its action"""
+    out = set()
+    for f in case["flows"]:
+        for p_ in f.get("pre", []):
+            if p_.startswith("stop:") and fits(case, f):
+                out.add(int(p_[5:]))
+    return out
+
+
 def fits(case, f):
     if f.get("trigger") in ("E2", "F"):
         return False  # waits for another event: the first event must leave it untouched
@@ -1276,14 +1314,20 @@ def oracle_round(case, run, k):
         if len(names) != 1:
             return f"flows declared in loops {names} share the runtime loop id {loop}"
         lname = names.pop()
-        comp = [i for i in idx if fits(case, flows[i])]
+        killed = stopped_targets(case)
+        comp = [i for i in idx if fits(case, flows[i]) and i not in killed]
+        for i in idx:
+            if i in killed:
+                a = step0["flows"][f"f{i}"]
+                if a is not None and a["status"] not in ("stopped",):
+                    return f"loop {lname}: flow f{i} was stopped by another flow (StopFlow) but is {a['status']}"
         payloads = []
         for e in starts:
             tag = e.get("script", e.get("x"))
             if isinstance(tag, str) and tag.rsplit("-", 1)[0] == lname:
                 payloads.append((e["type"], tag))
         for i in idx:
-            if i in comp:
+            if i in comp or i in killed:
                 continue
             b, a = before[f"f{i}"], step0["flows"][f"f{i}"]
             if a is None or (a["status"], a["pos"], a["acts"]) != (b["status"], b["pos"], b["acts"]):
@@ -1421,7 +1465,7 @@ def _tags(case, obs):
             if f.get("wait"):
                 t.append("wait:" + f["wait"]["kind"])
             for p_ in f.get("pre", []):
-                t.append("pre:" + p_)
+                t.append("pre:" + p_.split(":")[0])
             if f.get("wrap"):
                 t.append(f"wrap:{f['wrap']}")
         if case.get("evtype"):
